@@ -311,20 +311,36 @@ class PipeCase:
             f.write('cd ' + dest + ' && PYTHONPATH=' + REPO_SRC + ' /venv/bin/python ' + ' '.join(cmd) + '\n')
         return cmd
 
-    def run_cli(self, model: dict, dest: str = None, timeout=30) -> Outcome:
+    def run_cli(self, model: dict, dest: str = None, timeout=30, hashseed=None, absolute=False, cwd=None,
+                reverse_includes=False) -> Outcome:
+        """the real command line in a fresh interpreter.  hashseed / absolute paths + other working directory /
+        include directories in reverse order: the run-to-run variations of C15"""
         own = dest is None
         if own:
             dest = tempfile.mkdtemp(prefix='sxcli_')
         try:
             cmd = self.write_concrete(model, dest)
+            if reverse_includes:
+                idx = [i for i, c in enumerate(cmd) if c == '-I']
+                dirs = [cmd[i + 1] for i in idx]
+                for i, d in zip(idx, reversed(dirs)):
+                    cmd[i + 1] = d
+            if absolute:
+                ab = lambda x: os.path.join(dest, x)  # noqa
+                for i, c in enumerate(cmd):
+                    if c in ('-c', '-o', '-I'):
+                        cmd[i + 1] = ab(cmd[i + 1])
+                cmd[3] = ab(cmd[3])
             env = dict(os.environ)
             env['PYTHONPATH'] = REPO_SRC
             env['PYTHONDONTWRITEBYTECODE'] = '1'
+            if hashseed is not None:
+                env['PYTHONHASHSEED'] = str(hashseed)
             outp = os.path.join(dest, 'out.bin')
             if os.path.exists(outp):
                 os.remove(outp)
             try:
-                p = subprocess.run([sys.executable, '-B'] + cmd, cwd=dest, env=env, capture_output=True,
+                p = subprocess.run([sys.executable, '-B'] + cmd, cwd=cwd or dest, env=env, capture_output=True,
                                    text=True, timeout=timeout)
             except subprocess.TimeoutExpired:
                 return Outcome('timeout', f'no termination within {timeout}s',
